@@ -256,6 +256,52 @@ def check_act(ck, prog):
     ck.floor("C11-ACT", 18)
 
 
+OUT_EXCEPT = {
+    ("block_encode_uncompressed", "out"): "single-call encoder: the caller (block_buffer_encode) compared out_size - *out_pos "
+                                          "with lzma_block_buffer_bound(in_size) first (arithmetic argument, see C02)",
+    ("block_buffer_encode", "out"): "single-call encoder: writes Block Padding after `out_size - *out_pos` was reduced to a "
+                                    "multiple of four and compared with the bound (arithmetic argument)",
+}
+
+
+def check_out_idx(ck, prog):
+    """`never touches memory outside the two buffers it was given`: every streaming store out[*out_pos] of the
+    resumable encoders is preceded on every path by the test *out_pos < out_size (E-AVAIL, same engine as C04-IDX for
+    the input side)."""
+    from sa import avail
+    from . import C04
+    ck.rule("C11-OUTIDX", "bounds fact *out_pos < out_size available at every out[*out_pos] store of the streaming encoders")
+    n = 0
+    saved = C04.IDX_BUFFERS
+    C04.IDX_BUFFERS = ("out",)
+    try:
+        for f in sorted(prog.all_functions("liblzma"), key=lambda f: (f.file, f.line)):
+            ts = C04.discover_triples(f)
+            if not ts:
+                continue
+            ck.saw_function(f)
+            g = C04.graph_of(prog, f)
+            for t in ts:
+                bad, nuses = avail.solve(g, t)
+                n += nuses
+                exc = OUT_EXCEPT.get((f.name, t.buf))
+                if not bad:
+                    ck.ob("C11-OUTIDX", "%s:%s" % (f.name, t.buf), True, common.where(f),
+                          "%d store(s) out[*out_pos] all dominated by *out_pos < out_size on every path" % nuses,
+                          key="OUTIDX:%s" % f.name)
+                    continue
+                (blk, i, u) = bad[0]
+                ck.ob("C11-OUTIDX", "%s:%s" % (f.name, t.buf), exc is not None, common.where(f, u),
+                      ("exception: " + exc) if exc else
+                      "%s is written in %s() on a path where `*out_pos < out_size` has not been established since the "
+                      "position last changed: for some output split one byte is written past the caller's buffer and "
+                      "avail_out wraps" % (ex.show(u), f.name), key="OUTIDX:%s" % f.name)
+    finally:
+        C04.IDX_BUFFERS = saved
+    if n < 10:
+        raise AnalysisBroken("C11-OUTIDX: only %d streaming stores found" % n)
+
+
 def run(ck):
     ck.explanation = (
         "The transition relation of lzma_code() is extracted by exhaustive finite-domain abstract evaluation "
@@ -267,3 +313,4 @@ def run(ck):
     check_fsm(ck, prog)
     check_acc(ck, prog)
     check_act(ck, prog)
+    check_out_idx(ck, prog)
